@@ -6,7 +6,7 @@ import (
 )
 
 func init() {
-	for _, p := range []string{"C01", "C03", "C04", "C06", "C07", "C09", "C11", "C13"} {
+	for _, p := range []string{"C01", "C03", "C04", "C06", "C07", "C09", "C11", "C13", "C10G"} {
 		p := p
 		runners[p] = func(module string, seed int64, tier string, d *hx.Driver, replay []string) *hx.Result {
 			return codec.Run(codec.Config{Prop: p, Module: module, Seed: seed, Tier: tier, Driver: d, Replay: replay})
